@@ -16,7 +16,7 @@ from typing import Dict, List, Optional, Tuple, Set
 from ..db import ProgramDB, FuncInfo, ClassInfo, AnalysisError, unparse, own_nodes, dotted
 from ..facts import own_calls, call_attr, resolve_call_target, bind_args, strip_docstring
 from ..framework import inst, HOLDS, VIOLATION, UNDECIDED, INFO, Instance
-from ..abseval import AbsEval, State, const, TOP, TRUE, FALSE, truth, fmt
+from ..abseval import AbsEval, State, const, TOP, TRUE, FALSE, NONE, truth, fmt
 from ..cfg import CFG
 
 BASE_OPS = ["operator.lt", "operator.le", "operator.gt", "operator.ge", "operator.eq", "operator.ne",
@@ -425,7 +425,7 @@ def domain_mapping_profile(db: ProgramDB):
     return m, filt
 
 
-def variable_output_profile(db: ProgramDB):
+def variable_output_profile(db: ProgramDB, predicate: bool = True):
     m = db.method("Variable", "_process_output_and_update_values_")
     out_param = m.positional_params[1]
     envs = [dict(invert=i, truthy=t, ywf=y) for i, t, y in itertools.product([False, True], repeat=3)]
@@ -433,7 +433,8 @@ def variable_output_profile(db: ProgramDB):
     def make_init(env):
         tok = ("obj", "truthy") if env["truthy"] else ("obj", "falsy")
         return State({"self._invert_": const(env["invert"]), "self._yield_when_false_": const(env["ywf"]),
-                      out_param: tok, "self._is_false_": TOP})
+                      out_param: tok, "self._is_false_": TOP,
+                      "self._predicate_type_": ("obj", "SomePredicateType") if predicate else NONE})
 
     def make_hooks(env):
         tok = ("obj", "truthy") if env["truthy"] else ("obj", "falsy")
